@@ -504,6 +504,19 @@ Section Receiver.
     ss_acc (stub_sessions (Some h) close_resets_sync stub_init (map session_msgs ss)) = None.
   Proof. rewrite close_resets. exact (sessions_from ss stub_init eq_refl). Qed.
 
+  (* the handler runs at most once per connection *)
+  Lemma delivery_at_most_once (s : session A B) : (length (session_delivery s) <= 1)%nat.
+  Proof. destruct s as [g [lp lc|]]; cbn; lia. Qed.
+
+  Theorem sessions_isolated_full (ss : list (session A B)) :
+    let st := stub_sessions (Some h) close_resets_sync stub_init (map session_msgs ss) in
+    ss_calls st = flat_map session_delivery ss /\ ss_acc st = None /\
+    (forall s, In s ss -> (length (session_delivery s) <= 1)%nat).
+  Proof.
+    cbv zeta. destruct (sessions_isolated ss) as [Hc Ha].
+    split; [exact Hc|]. split; [exact Ha|]. intros s _. apply delivery_at_most_once.
+  Qed.
+
   Lemma flat_map_closed (failed : list (list (list A * list B))) :
     flat_map session_delivery (map (fun g => (g, @SClosed A B)) failed) = [].
   Proof. induction failed as [|g r IH]; [reflexivity|]. cbn [map flat_map session_delivery snd app]. exact IH. Qed.
@@ -517,10 +530,6 @@ Section Receiver.
     destruct (sessions_isolated (map (fun g => (g, SClosed)) failed ++ [(groups, SFinal lp lc)])) as [Hc _].
     rewrite Hc, flat_map_app, flat_map_closed. reflexivity.
   Qed.
-
-  (* the handler runs at most once per connection *)
-  Lemma delivery_at_most_once (s : session A B) : (length (session_delivery s) <= 1)%nat.
-  Proof. destruct s as [g [lp lc|]]; cbn; lia. Qed.
 
   (* sender and receiver together, after a restart: whatever state [st] earlier connections
      left in the stub value (in particular the chunks of a synchronisation that failed half-way),
